@@ -505,7 +505,7 @@ def lot_vectors_dense_internal(
         chunk_end = min(chunk_start + chunk_size, n_rows)
         for i in range(chunk_start, chunk_end):
             row_vectors = sample_vectors[i].astype(np.float64)
-            row_distribution = sample_distributions[i]
+            row_distribution = sample_distributions[i].astype(np.float64)
 
             if row_vectors.shape[0] > max_distribution_size:
                 best_indices = np.argsort(-row_distribution)[:max_distribution_size]
